@@ -642,7 +642,8 @@ def alias_nontrivial(inp, impl):
         ks.append("replies-in-separate-reads")
     if any(int(x) > 1 for x in g):
         ks.append("several-replies-in-one-read")
-    fr = inp.split(" F ")[1].split(" G ")[0].split() if " F " in inp else []
+    if " X -" not in inp and " X " in inp:
+        ks.append("stream-ended-by-general-error")
     return ks
 
 
@@ -665,7 +666,8 @@ def run_alias(run, cfg, G):
         diff_run(run, G, ["alias"], "alias", alias_nontrivial, "alias-search", tier="thorough", seed_offset=1, record=False, known_key=alias_known_key)
     finish_corr(run, G, [search])
     run.cov["rule"] = ("chains of 2..6 calls whose replies carry a borrowed &str (Reply<P<'a>>) of varying length, delivered in every grouping pattern drawn at random (all in one read ... one read each); every item yielded by the chain's reply stream is HELD while "
-                       "the later ones are obtained, then compared with the copy taken when it was yielded; total size below the first growth step (no reallocation is provoked: reading through a dangling reference would be UB); "
+                       "the later ones are obtained, then compared with the copy taken when it was yielded; total size below the first growth step (no reallocation is provoked: reading through a dangling reference would be UB) except for all-buffered batches "
+                       "with one reply of 0.3..12 KiB (growth happens before the first item is yielded); every sixth case one reply after the first is a general error (service error / undecodable frame) that ends the stream while earlier items are held; "
                        "the model predicts exactly which held items are overwritten; non-trivial = at least one held item intact or changed; distinct = distinct case lines")
 
 
@@ -951,7 +953,8 @@ PROPS = {
     "C13": {
         "property_modules": ["Zlink.Properties.C13"], "lean_modules": ["Zlink.Properties.C13"],
         "theorems": ["C13.C13_total", "C13.C13_type_names_exact", "C13.C13_field_names_exact", "C13.C13_interface_names_complete",
-                     "C13.C13_types_complete", "C13.C13_complete", "C13.C13_types_layout", "C13.C13_layout"],
+                     "C13.C13_types_complete", "C13.C13_complete", "C13.C13_types_layout", "C13.C13_layout",
+                     "C13.C13_interface_names_sound", "C13.C13_sound_tree"],
         "run": run_idl, "trusted_base": TB_COMMON,
         "assumptions": [
             "winnow's alt / separated / literal / take_while / multispace0 and str::trim behave as ported in Zlink/Model/Idl.lean (validated by the correspondence run: identical trees / rejections on every explored text)",
@@ -959,7 +962,8 @@ PROPS = {
             "(any nesting of ?, [], [string], inline structs and enums, any number of members / fields / variants, comments in every slot the description has) is recovered exactly, members in order, from its canonical text",
             "C13_layout (unbounded): the grammar as an inductive relation IfaceCoreL between descriptions and texts - gaps of space/tab/CR/LF wherever the scenario's layout generator puts them (inside parentheses, around `:` `,` `->`, after keywords, between members, around the text), "
             "comment lines with arbitrary blanks in every slot, members of the three kinds in any interleaving - and the theorem that every such text parses to exactly the description; not covered by the relation: layout comments in places where the description has no slot, form feed / Unicode white space",
-            "PARTIAL: not proved, decided per explored text by the Lean oracle on the implementation's observation and by model = implementation: the soundness direction beyond the lexers - any accepted text is grammatical and nothing of it is ignored (oracle `nothingIgnored`) - and soundness of the interface-name lexer",
+            "C13_sound_tree (every input text): an accepted text yields a description made of grammatical names and parser-shaped comments only (all three lexers sound; induction over the parser's fuel through all nine mutually recursive type parsers and the member loops)",
+            "PARTIAL: not proved, decided per explored text by the Lean oracle on the implementation's observation and by model = implementation: that an accepted *text* is grammatical and nothing of it is ignored (oracle `nothingIgnored`)",
             "C13_complete carries the side condition noVCI (no inline enum with commented variants): such trees exist only through the constructors, the parser has no slot for these comments; without the condition the statement is false (C13_complete_statement, kept visible)",
             "leniencies deliberately not counted as violations: members without a line break between them; comments at places where the description has no slot (layout, as in the grammar's `_` production)",
         ],
